@@ -4,3 +4,22 @@
 def decode_count(c):
     """3.7.1.3: count = (16 + (c & 15)) << ((c >> 4) + 6), written arithmetically"""
     return (16 + c % 16) * 2 ** (c // 16 + 6)
+
+
+def derive(specifier, hashname, keybits, salt, coded_count, passphrase):
+    """3.7.1.1-3: independent reference (native only; uses hashlib). specifier 0 simple, 1 salted, 3 iterated."""
+    import hashlib
+    material = (salt if specifier in (1, 3) else b'') + passphrase
+    n = len(material)
+    if specifier == 3:
+        n = max(decode_count(coded_count), len(material))
+    if len(material) == 0:
+        stream = b''
+    else:
+        stream = (material * (n // len(material) + 1))[:n]
+    out = b''
+    i = 0
+    while len(out) * 8 < keybits:
+        out += hashlib.new(hashname, b'\x00' * i + stream).digest()
+        i += 1
+    return out[:keybits // 8]
